@@ -39,16 +39,41 @@ Print Assumptions C05_slow_validator_is_timeout.
    signature in V2, where a missing validator rejects; the signed ones in V1, where the application-wide
    sha256_digest_checker stands in for a missing route validator) *)
 Theorem C05_interest_gate (fe : frontend) (h : list (tie * ev)) (hd : N) (k : inc) :
-  In (hd, k) (hcalls (run_hist fe h)) -> exists hasv, may_deliver fe hasv k = true.
+  In (hd, k) (hcalls (run_hist fe h)) -> exists own, may_deliver fe own k = true.
 Proof. exact (interest_gate fe h hd k). Qed.
 Print Assumptions C05_interest_gate.
 
-(* ... and the gate is exact: the handler of the longest-prefix route is called iff the specification allows it *)
-Theorem C05_gate_exact (fe : frontend) (f : list (name * (N * bool))) (k : inc) (hd : N) (hasv : bool) :
-  gate fe f k = Some (hd, hasv) <->
-  (exists p, lpm f (k_name k) = Some (p, (hd, hasv))) /\ may_deliver fe hasv k = true.
-Proof. exact (gate_iff fe f k hd hasv). Qed.
+(* ... and the gate is exact: the handler of the longest-prefix route is called iff the specification allows it under
+   the validator in force: the route's own validator, else (legacy) the application-wide validator [dv] as it is when
+   the Interest is dispatched *)
+Theorem C05_gate_exact (fe : frontend) (dv : bool) (f : list (name * (N * bool))) (k : inc) (hd : N) (hasv : bool) :
+  gate fe dv f k = Some (hd, hasv) <->
+  (exists p, lpm f (k_name k) = Some (p, (hd, hasv))) /\ may_deliver fe (in_force fe hasv dv) k = true.
+Proof. exact (gate_iff fe dv f k hd hasv). Qed.
 Print Assumptions C05_gate_exact.
+
+(* "the validator in force", for EVERY history: an Interest arriving after the history h calls exactly what the gate
+   allows with the application-wide validator as LAST SET in h ([default_of h], Spec) - whether the route was attached
+   before or after that assignment - and nothing else *)
+Theorem C05_validator_in_force (fe : frontend) (h : list (tie * ev)) (m : tie)
+        (k : N) (n : name) (hp : bool) (sg : N) (dok : bool) (v t : N) :
+  hcalls (run_hist fe (h ++ [(m, Incoming k n hp sg dok v t)]))
+  = hcalls (run_hist fe h)
+    ++ match gate fe (default_of h) (fib (run_hist fe h)) (mkInc k n hp sg dok v) with
+       | Some (hd, _) => [(hd, mkInc k n hp sg dok v)]
+       | None => []
+       end.
+Proof. exact (incoming_after fe h m k n hp sg dok v t). Qed.
+Print Assumptions C05_validator_in_force.
+
+Theorem C05_delivered_only_if_in_force_accepts (fe : frontend) (h : list (tie * ev)) (m : tie)
+        (k : N) (n : name) (hp : bool) (sg : N) (dok : bool) (v t : N) (hd : N) :
+  In (hd, mkInc k n hp sg dok v) (hcalls (run_hist fe (h ++ [(m, Incoming k n hp sg dok v t)]))) ->
+  In (hd, mkInc k n hp sg dok v) (hcalls (run_hist fe h)) \/
+  exists p hasv, lpm (fib (run_hist fe h)) n = Some (p, (hd, hasv)) /\
+                 may_deliver fe (in_force fe hasv (default_of h)) (mkInc k n hp sg dok v) = true.
+Proof. exact (incoming_after_iff fe h m k n hp sg dok v t hd). Qed.
+Print Assumptions C05_delivered_only_if_in_force_accepts.
 
 (* the verdict table used above is the one of the source: ValidResult as reflected from ndn.types on this run *)
 Theorem C05_verdict_table_matches_source :
@@ -71,13 +96,20 @@ Definition ex_c05 : list (tie * ev) :=
     (NoTie, Incoming 1 [0; 2] true 1 true 2 41);      (* validator SILENCE -> dropped by V2 (truthy for V1) *)
     (NoTie, Incoming 2 [0; 1; 2] true 0 true 3 42);   (* route without validator: V2 drops *)
     (NoTie, Incoming 3 [0; 1; 2] false 0 true 0 43);  (* plain: delivered without validator *)
+    (NoTie, SetDefault true 50);                      (* legacy: app.int_validator replaced AFTER the routes exist *)
+    (NoTie, Incoming 4 [0; 1; 2] true 1 true 0 51);   (* /a/b has no validator of its own: the new default rejects (V1) *)
+    (NoTie, Incoming 5 [0; 1; 2] true 1 true 1 52);   (* ... and accepts this one (V1); V2 still drops both *)
+    (NoTie, SetDefault false 53);
+    (NoTie, Incoming 6 [0; 1; 2] true 1 true 0 54);   (* library default again: DigestSha256 ok -> delivered (V1) *)
     (EvFirst, VDone 0 3 100) ].                        (* verdict exactly at the deadline -> timeout *)
 Example C05_example :
   wf_history ex_c05 /\
   completion (run_hist V2 ex_c05) 0 = Some OTimeout /\
   completion (run_hist V2 ex_c05) 1 = Some (OInvalid 5 2) /\
   map (fun x : N * inc => (fst x, k_id (snd x))) (hcalls (run_hist V2 ex_c05)) = [(0, 0); (1, 3)] /\
-  map (fun x : N * inc => (fst x, k_id (snd x))) (hcalls (run_hist V1 ex_c05)) = [(0, 0); (0, 1); (1, 2); (1, 3)] /\
+  map (fun x : N * inc => (fst x, k_id (snd x))) (hcalls (run_hist V1 ex_c05)) = [(0, 0); (0, 1); (1, 2); (1, 3); (1, 5); (1, 6)] /\
+  ivcalls (run_hist V1 ex_c05) = [0; 1; 4; 5] /\
+  default_of (firstn 12 ex_c05) = true /\ default_of ex_c05 = false /\
   spec_state V2 (firstn 5 ex_c05) 0 = IValidating (mkSp [0] false None 100 VDef) 5.
 Proof.
   split; [cbn; repeat split; try lia; intros H; repeat (destruct H as [H|H]; try discriminate H); contradiction|].
